@@ -14,19 +14,19 @@ import (
 )
 
 type Summary struct {
-	Stream       string            `json:"stream"`
-	Seed         uint64            `json:"seed"`
-	Evaluations  int               `json:"evaluations"`
-	Nontrivial   int               `json:"distinct_nontrivial"`
-	Rule         string            `json:"rule"`
-	Samples      []string          `json:"samples"`
-	Hist         map[string]int    `json:"histogram"`
-	FullLineMismatches int         `json:"full_line_mismatches"`
-	Mismatches   map[string][]Mismatch `json:"mismatches"` // property -> projection mismatches (model vs implementation)
-	Violations   map[string][]Mismatch `json:"violations"` // property -> failures of a direct oracle on the real code
-	Known        map[string][]string   `json:"known"`      // property -> known-finding hits
-	ModelErrors  int               `json:"model_errors"`
-	Exhaustive   bool              `json:"exhaustive"`
+	Stream             string                `json:"stream"`
+	Seed               uint64                `json:"seed"`
+	Evaluations        int                   `json:"evaluations"`
+	Nontrivial         int                   `json:"distinct_nontrivial"`
+	Rule               string                `json:"rule"`
+	Samples            []string              `json:"samples"`
+	Hist               map[string]int        `json:"histogram"`
+	FullLineMismatches int                   `json:"full_line_mismatches"`
+	Mismatches         map[string][]Mismatch `json:"mismatches"` // property -> projection mismatches (model vs implementation)
+	Violations         map[string][]Mismatch `json:"violations"` // property -> failures of a direct oracle on the real code
+	Known              map[string][]string   `json:"known"`      // property -> known-finding hits
+	ModelErrors        int                   `json:"model_errors"`
+	Exhaustive         bool                  `json:"exhaustive"`
 }
 
 type Mismatch struct {
@@ -99,6 +99,8 @@ func main() {
 	switch *stream {
 	case "engine":
 		sum, err = streamEngine(*seed, *n, *driver, *corpus, *dump, *variant)
+	case "pool":
+		sum, err = streamPool(*seed, *n)
 	case "http":
 		sum, err = streamHTTP(*seed, *n, *driver)
 	case "helpers":
